@@ -99,9 +99,14 @@ class KUnit:
                 tier = (re.search(r'tier=(\w+)', rest) or [None, 'quick'])[1]
                 b = re.search(r'bound="([^"]*)"', rest)
                 t = re.search(r'text="([^"]*)"', rest)
+                hn = re.search(r'harness=(\w+)', rest)
                 pending = (m.group(2), props, level, tier, b.group(1) if b else '', t.group(1) if t else '')
                 out.append(lines[i])
                 i += 1
+                if hn:
+                    self.obligations.append(KObligation(self.name, pending[0], pending[1], hn.group(1),
+                                                        pending[2], pending[3], pending[4], pending[5]))
+                    pending = None
                 continue
             if pending:
                 mf = re.match(r'\s*(pub\s+)?fn\s+([A-Za-z0-9_]+)\s*\(', lines[i])
